@@ -2,15 +2,34 @@
 // A generic `F: FnMut(&T)` parameter can interact with the walker only by being called. The walker is verified against
 // the universal recorder below: every call `f(x)` becomes `f.visit(x)`, which appends x to a ghost log. What the walker
 // guarantees for this recorder (the log grows by exactly the contract sequence) it guarantees for every closure.
+// The type visitor announces a `universe` (fixed): the walker must only ever offer nodes of it, so a callback may rely on a
+// property that all nodes of the tree have (check_containers: the grammar's arities), and it may keep an invariant.
 trait TypeVisitor {
+    type Fixed;
+    #[verifier::prophetic]
+    spec fn fixed(&self) -> Self::Fixed;
+    spec fn universe(&self) -> Seq<ast::Type>;
     spec fn log(&self) -> Seq<ast::Type>;
+    spec fn inv(&self) -> bool;
     fn visit(&mut self, t: &ast::Type)
-        ensures final(self).log() == old(self).log().push(*t);
+        requires old(self).inv(), old(self).universe().contains(*t)
+        ensures final(self).inv(), final(self).log() == old(self).log().push(*t), final(self).universe() == old(self).universe(),
+            final(self).fixed() == old(self).fixed();
 }
-trait MethodVisitor {
+// The method visitor additionally announces what it expects to be offered (`plan`, fixed): the walker must offer exactly
+// the next element of the plan at every call, so a callback may rely on "this is element number log().len() of the
+// sequence" (check_methods does), and it may keep an invariant of its own choosing between calls.
+trait MethodVisitor<'a> {
+    type Fixed;                                   // whatever the callback never changes (its immutable captures)
+    #[verifier::prophetic]
+    spec fn fixed(&self) -> Self::Fixed;
+    spec fn plan(&self) -> Seq<ast::Method>;
     spec fn log(&self) -> Seq<ast::Method>;
-    fn visit(&mut self, m: &ast::Method)
-        ensures final(self).log() == old(self).log().push(*m);
+    spec fn inv(&self) -> bool;
+    fn visit(&mut self, m: &'a ast::Method)
+        requires old(self).inv(), old(self).log().len() < old(self).plan().len(), *m == old(self).plan()[old(self).log().len() as int]
+        ensures final(self).inv(), final(self).log() == old(self).log().push(*m), final(self).plan() == old(self).plan(),
+            final(self).fixed() == old(self).fixed();
 }
 trait ArgVisitor {
     spec fn log(&self) -> Seq<(ast::Method, ast::Arg)>;
